@@ -1117,12 +1117,16 @@ Init ==
 
 PubFuncs == { P.funcs[i] : i \in { j \in 1..Len(P.funcs) : P.funcs[j].pub } }
 
+\* a program may lower the number of public calls per history (operator-grid programs: many pure functions with
+\* exhaustive argument choices, where longer histories add nothing)
+PMaxCalls == IF "maxcalls" \in DOMAIN P /\ P.maxcalls < MaxCalls THEN P.maxcalls ELSE MaxCalls
+
 \* A public call.  choice = index into the function's exported argument choices.
 Call(g, ci) ==
     /\ mode = "idle" /\ fault = NoFaultRec
     /\ LET argf == ArgFun(g.choices[ci])
            resuming == g.eff = "?" /\ active = g.name
-       IN /\ (resuming \/ ncalls < MaxCalls)
+       IN /\ (resuming \/ ncalls < PMaxCalls)
           /\ pend' = [fn |-> g.name, args |-> g.choices[ci], wi |-> src.wi, closed |-> src.closed, cap |-> dst.cap, resumed |-> resuming]
           /\ ncalls' = IF resuming THEN ncalls ELSE ncalls + 1
           /\ IF disabled /\ g.eff # ""
@@ -1194,7 +1198,7 @@ View == <<pi, th, stack, saved, src, dst, mode, status, retv, disabled, active, 
 \* (... or the coroutine waits for input that cannot come - the source is closed - or for room that cannot come)
 Stuck == mode = "idle" /\ ~disabled /\ fault = NoFaultRec
          /\ ((status = ShortRead /\ src.closed) \/ (status = ShortWrite /\ dst.cap >= P.dstcap))
-Finished == \/ mode \in {"idle", "done"} /\ (ncalls >= MaxCalls \/ mode = "done" \/ disabled)
+Finished == \/ mode \in {"idle", "done"} /\ (ncalls >= PMaxCalls \/ mode = "done" \/ disabled)
                 /\ ~(status \in {ShortRead, ShortWrite, "supplied", "drained"} /\ mode = "idle" /\ ~disabled /\ fault = NoFaultRec)
             \/ Stuck
 ExportInv == Finished => PrintT(ToJson([prog |-> pi, fault |-> fault, input |-> src.data, hist |-> hist]))
